@@ -37,13 +37,42 @@ def gen_job(rng, jid, tier):
             "goroutines": rng.choice([8, 16, 32]), "rounds": 2 if tier == "quick" else 6, "seed": rng.randint(1, 1 << 30)}
 
 
+def popular_job(rng, jid, tier, hash_, nrefs, bs):
+    """one object referenced from so many ref blocks that the writer omits its position list from the object index: RefsFor of that
+    object falls back to a scan of all ref blocks - concurrently, through a reader nobody has used before"""
+    hs = 20 if hash_ == "sha1" else 32
+    pool = [CT.hexhash(rng, hs) for _ in range(3)]
+    names = ["refs/heads/pop%05d" % k for k in range(nrefs)]
+    tabs = []
+    for idx in (1, 2):
+        sub = names if idx == 1 else names[::7]
+        refs = [{"n": n, "i": idx, "v": ["v", pool[0] if k % 11 else pool[1], ""]} for k, n in enumerate(sub)]
+        logs = [{"n": n, "i": idx, "old": pool[2], "new": pool[0], "user": "u", "time": 7, "msg": "m"} for n in sub[:6]]
+        tabs.append({"min": idx, "max": idx, "refs": refs, "logs": logs})
+    tabs.reverse()      # the big table is the last one (the one whose sequential answers TLC validates); indices stay increasing
+    tabs[0]["min"] = tabs[0]["max"] = 1
+    tabs[1]["min"] = tabs[1]["max"] = 2
+    for t in tabs:
+        for r in t["refs"]:
+            r["i"] = t["min"]
+        for l in t["logs"]:
+            l["i"] = t["min"]
+    return {"id": jid, "blocksize": bs, "unaligned": False, "hash": hash_, "tabs": tabs,
+            "seekrefs": ["", names[3], names[-1], "zzzz"], "seeklogs": [{"n": names[1], "i": 2}], "oids": pool + ["ab" * hs],
+            "goroutines": 16, "rounds": 2 if tier == "quick" else 6, "seed": rng.randint(1, 1 << 30)}
+
+
 def table_case(job):
     t = job["tabs"][-1]
     logs = [{"n": l["n"], "i": l["i"], "del": False, "old": l["old"], "new": l["new"], "user": l["user"], "email": "", "time": l["time"], "tz": 0, "msg": l["msg"]}
             for l in sorted(t["logs"], key=lambda l: l["n"])]
-    return {"id": "seq-" + job["id"], "blocksize": job["blocksize"], "restart": 0, "unaligned": job["unaligned"], "skipindex": False, "hash": job["hash"],
+    case = {"id": "seq-" + job["id"], "blocksize": job["blocksize"], "restart": 0, "unaligned": job["unaligned"], "skipindex": False, "hash": job["hash"],
             "exact": False, "min": t["min"], "max": t["max"], "refs": sorted(t["refs"], key=lambda r: r["n"]), "logs": logs,
             "seekrefs": sorted(set(job["seekrefs"])), "seeklogs": job["seeklogs"], "oids": job["oids"], "universe": [], "layout": False}
+    if len(t["refs"]) > 500:
+        case["big"] = True      # too large for TLC to evaluate: the driver compares the scan, TLC sees the verdict
+        case["seekrefs"], case["seeklogs"], case["oids"] = [], [], []
+    return case
 
 
 def run(pid, tier):
@@ -57,6 +86,7 @@ def run(pid, tier):
         drv = C.gobuild(mod, "drvrace", os.path.join(sc, "drvrace"), race=True, timeout=900)
         drvt = C.gobuild(mod, "drvtable", os.path.join(sc, "drvtable"))
         jobs = [gen_job(rng, "j%d" % i, tier) for i in range(24 if tier == "quick" else 160)]
+        jobs += [popular_job(rng, "pop0", tier, "sha1", 3000, 256), popular_job(rng, "pop1", tier, "s256", 2000, 320)]
         # (a) sequential answers of the same tables against the specification
         seq = CT.run_cases([table_case(j) for j in jobs], drvt, sc)
         viols, rej, vstats = S.validate(seq, sc, module="TraceTable", chunk=6, jvms=12)
